@@ -14,8 +14,10 @@ import (
 	"strconv"
 	"strings"
 	"sync"
+
 	"sync/atomic"
 	"time"
+	"verif/mc/enum"
 )
 
 // Root is the /verif directory (VERIF_ROOT or cwd).
@@ -80,6 +82,31 @@ func New(id, tier, level string) *Run {
 	}
 	if s := os.Getenv("VERIF_SEED"); s != "" {
 		r.Seed, _ = strconv.Atoi(s)
+	}
+	// safety net: a panic raised inside the library that escapes an item of
+	// enum.Parallel (a call the check did not isolate) is a violation, not a
+	// crash of the check; a panic raised by the check's own code continues.
+	enum.OnPanic = func(i int, p interface{}, stack []byte) bool {
+		st := string(stack)
+		k := strings.Index(st, "panic(")
+		if k < 0 {
+			return false
+		}
+		rest := st[k:]
+		// the frame that raised it is the first non-runtime frame after panic()
+		for _, ln := range strings.Split(rest, "\n")[1:] {
+			if !strings.HasPrefix(ln, "\t") {
+				if strings.HasPrefix(ln, "runtime.") || strings.HasPrefix(ln, "panic(") {
+					continue
+				}
+				if strings.HasPrefix(ln, "github.com/ctessum/geom") {
+					r.Violation("library-panic-outside-isolated-call", map[string]interface{}{"item": i, "panic": fmt.Sprint(p), "stack": rest})
+					return true
+				}
+				return false
+			}
+		}
+		return false
 	}
 	if b, err := os.ReadFile(filepath.Join(Root(), "known_findings.json")); err == nil {
 		var all struct {
